@@ -17,6 +17,13 @@ declare -A MAP=(
  [C17-second-init-treated-as-call]="C17" [C18-launch-cores-max-of-percall-and-default]="C18 C10" [C20-list-recursion-drops-label]="C20"
  [C14-output-file-not-renamed-from-input]="C14 C13" [C13-output-file-not-renamed-from-input]="C14 C13" [C05-base-process-cleared-only-when-waiting]="C05"
  [C06-drain-skips-task-done-for-cancelled]="C06 C05" [C01-socket-caches-function-pickle-by-id]="C01" [C19-worker-cap-after-positivity-check]="C19"
+ [C02-resolver-abandons-waitlist-on-nowait]="C02" [C03-resolved-list-cache-by-id]="C03" [C07-dispatcher-uses-max-workers-as-cores]="C07"
+ [C09-key-resources-in-set-order]="C09" [C10-filemode-merge-mutates-shared-default]="C10" [C15-wrapper-names-first-parameter-fn]="C15"
+ [C16-srun-extra-args-deduplicated]="C16" [C17-worker-closes-socket-without-linger]="C17" [C20-plot-tables-shared-between-executors]="C20"
+ [C08-session-key-memo-by-equality]="C08" [C04-error-replaced-when-roundtrip-not-equal]="C04" [C19-default-valued-unsupported-keys-accepted]="C19"
+ [C05-spawner-poll-reads-stale-returncode]="C05" [C18-mpiexec-ranks-clamped-to-affinity]="C18 C16" [C13-parked-task-dropped-from-dependency-filter]="C13"
+ [C01-resolver-rebuilds-tuple-dict-subclasses]="C01 C03" [C11-shared-percall-queue]="C11" [C12-join-queue-before-stopping-worker]="C12"
+ [C14-cache-entry-moved-from-tmpdir]="C14"
  [C18-returned-exception-treated-as-raised]="C18" [C12-shutdown-skipped-when-not-yet-connected]="C12" [C19-base-init-after-default-cores]="C19" [C20-dedup-edges-per-node-pair]="C20"
 )
 for S in $(ls seeded | sort); do
